@@ -148,43 +148,111 @@ def wire_call(real, call, desc):
             "phase_fragments": [[[p, o] for p, o in rv.items()] for rv in sam.phases.values()] if use_phase else []}
 
 
+def cand_defs(gene, call):
+    """definition (core + silent variants) of every candidate (major, minor) of the call"""
+    out = {}
+    for a in call["alleles_list"]:
+        out.setdefault((a.major, a.minor), frozenset(set(gene.alleles[a.major].func_muts) | set(gene.alleles[a.major].minors[a.minor].neutral_muts)))
+    return out
+
+
+def phase_patterns(call):
+    """the read-phase patterns the refinement is asked to respect: fragments restricted to considered sites, at least two
+    sites, with multiplicity. Returns [] without phase evidence and None when the implementation down-samples them
+    (more patterns x allele copies than minor_phase_vars: which patterns survive is not part of the property)"""
+    cov, ms = call["cov"], call["major_sol"]
+    if not (cov.profile.phase and cov.sam):
+        return []
+    mut_pos = {m.pos for m in call["mutations"]}
+    modes = collections.OrderedDict()
+    for rv in cov.sam.phases.values():
+        c = tuple(sorted((k, v) for k, v in rv.items() if k in mut_pos))
+        if len(c) > 1:
+            modes[c] = modes.get(c, 0) + 1
+    counts = collections.Counter()
+    for sa, k in ms.solution.items():
+        counts[sa.major] += k
+    n_slots = sum(max(1, counts[maj]) for (maj, _mi) in {(a.major, a.minor) for a in call["alleles_list"]})
+    if len(modes) * n_slots > cov.profile.minor_phase_vars:
+        return None
+    return [(dict(c), n) for c, n in modes.items()]
+
+
+def slot_phase(gene, muts, maj, d, kept, add, r):
+    """(eligible, disagreements) of one allele copy with a read pattern: the copy is eligible when at least two considered
+    variants at sites of the pattern can be kept or added on it; a variant the pattern shows must be on the copy, a variant
+    at a site where the pattern shows something else must not"""
+    n, cost = 0, 0
+    for m in muts:
+        if m.pos not in r or not gene.has_coverage(maj, m.pos):
+            continue
+        on = (m in kept) if m in d else (m in add)
+        n += 1
+        cost += (0 if on else 1) if m.op == r[m.pos] else (1 if on else 0)
+    return n > 1, cost
+
+
+def phase_term(gene, call, patterns, active, cands):
+    """read-phase disagreement of an assignment: every pattern that some candidate copy could explain is attributed to the
+    selected copy that contradicts it least. `active`: [(major, definition, kept, added)]; None = inadmissible"""
+    muts = call["mutations"]
+    w = float(call["cov"].profile.minor_phase)
+    tot = 0.0
+    for r, cnt in patterns:
+        costs = [c for ok, c in (slot_phase(gene, muts, maj, d, kept, add, r) for maj, d, kept, add in active) if ok]
+        if costs:
+            tot += w * cnt * min(costs)
+        elif any(slot_phase(gene, muts, maj, d, d, frozenset(), r)[0] for (maj, _mi), d in cands.items()):
+            return None
+    return tot
+
+
 def spec_objective(gene, call, sol):
-    """documented objective of a returned assignment: fit error + miss/add/novel-core penalties
-    (+ tie-breaker, + phase term left out: returned when no phase evidence)"""
+    """documented objective of a reported assignment: fit error + penalties for dropped / added / novel core variants +
+    read-phase disagreement (tie-breaker left out). None when it cannot be decided from the report: the homozygous
+    post-processing may have added a variant after the model was solved, or the phase patterns were down-sampled"""
     cov, ms = call["cov"], call["major_sol"]
     prof = cov.profile
     muts = call["mutations"]
     from aldy.gene import Mutation
+    patterns = phase_patterns(call)
+    if patterns is None:
+        return None
+    max_cn = ms.cn_solution.max_cn()
+    obs = {}
+    positions = sorted({m.pos for m in muts})
+    for m in list(muts) + [Mutation(p, "_") for p in positions]:
+        sc = cov.single_copy(m, ms.cn_solution)
+        obs[m] = cov[m] / sc if sc > 0 else 0
+    if any(abs(obs[m] - max_cn) <= 1e-4 for a in sol.solution for m in a.added):
+        return None
+    cands = cand_defs(gene, call)
     carriers = collections.Counter()
     refc = collections.Counter()
-    positions = sorted({m.pos for m in muts})
     pen = 0.0
     novel_core = set()
-    for a in sol:
-        d = set(gene.alleles[a.major].func_muts) | set(gene.alleles[a.major].minors[a.minor].neutral_muts)
+    active = []
+    for a in sol.solution:
+        d = cands.get((a.major, a.minor))
+        if d is None:
+            return None
         kept = d - set(a.missing)
-        added = set(a.added_model)
+        added = frozenset(a.added)
+        active.append((a.major, d, kept, added))
         for m in kept | added:
             carriers[m] += 1
-        pen += float(prof.minor_miss) * len(set(a.missing))
+        pen += float(prof.minor_miss) * len(set(a.missing)) + float(prof.minor_add) * len(added)
         for m in added:
             if gene.is_functional(m) and m not in gene.alleles[a.major].func_muts:
                 novel_core.add(m)
         for p in positions:
             if gene.has_coverage(a.major, p):
-                here = [m for m in kept | added if m.pos == p and m.op[:3] != "ins"]
-                refc[p] += 1 - len(here)
-    err = 0.0
-    for m in muts:
-        sc = cov.single_copy(m, ms.cn_solution)
-        obs = cov[m] / sc if sc > 0 else 0
-        err += abs(obs - carriers[m])
-    for p in positions:
-        m = Mutation(p, "_")
-        sc = cov.single_copy(m, ms.cn_solution)
-        obs = cov[m] / sc if sc > 0 else 0
-        err += abs(obs - refc[p])
-    return err, pen, novel_core
+                refc[p] += 1 - sum(1 for m in kept | added if m.pos == p and m.op[:3] != "ins")
+    err = sum(abs(obs[m] - carriers[m]) for m in muts) + sum(abs(obs[Mutation(p, "_")] - refc[p]) for p in positions)
+    ph = phase_term(gene, call, patterns, active, cands)
+    if ph is None:
+        return None
+    return err + pen + float(prof.minor_add) / 2 * len(novel_core) + ph
 
 
 def oracle(real, desc):
@@ -236,11 +304,13 @@ def oracle(real, desc):
 
 
 def brute_force(real, call, limit=40000):
-    """optimal objective by enumeration (no phase evidence); None if too large"""
+    """optimal objective by enumeration (read-phase disagreement included); None if too large or the patterns are down-sampled"""
     gene = real["gene"]
     cov, ms = call["cov"], call["major_sol"]
-    if cov.profile.phase and cov.sam:
+    patterns = phase_patterns(call)
+    if patterns is None:
         return None
+    cdefs = cand_defs(gene, call)
     prof = cov.profile
     muts = list(call["mutations"])
     from aldy.gene import Mutation
@@ -323,6 +393,11 @@ def brute_force(real, call, limit=40000):
                 pass
         err = sum(abs(obs[m] - carriers[m]) for m in muts) + sum(abs(obs[Mutation(p, "_")] - refc[p]) for p in positions)
         val = err + pen + float(prof.minor_add) / 2 * len(novel)
+        if patterns:
+            ph = phase_term(gene, call, patterns, [(maj, cdefs[(maj, mino)], kept, add) for maj, (mino, kept, add, nmiss) in slots], cdefs)
+            if ph is None:
+                continue
+            val += ph
         if best is None or val < best:
             best = val
             brute_force.last = [(maj, mino, sorted(map(str, kept)), sorted(map(str, add))) for maj, (mino, kept, add, nmiss) in slots]
@@ -431,9 +506,20 @@ def tie(ctx):
                 fam["minor_score"]["cases"] += 1
                 if abs(sol.score - call["yields"][0][1]) > TOL:
                     fam["minor_score"]["disagreements"].append({"why": f"returned score {sol.score} differs from the reported objective {call['yields'][0][1]}", "input": d})
+                # "the reported score equals the model objective of the reported assignment": fit error + penalties +
+                # read-phase disagreement, recomputed from the report alone (the tie-breaker adds at most minor_add * #selectors / 1e6)
+                so = spec_objective(real["gene"], call, sol)
+                if so is None:
+                    stats["score_clause_undecided"] += 1
+                else:
+                    stats["score_clause_checked"] += 1
+                    stats["score_clause_with_phase"] += bool(phase_patterns(call))
+                    if abs(sol.score - so) > 2e-3 + TOL:
+                        violations.append({"why": f"reported score {sol.score} but the objective of the reported assignment (fit error + dropped/added/novel-core penalties + read-phase disagreement) is {so}", "input": d, "signature": "c04:score_not_objective"})
                 bf = brute_force(real, call) if len(call["mutations"]) <= 7 else None
                 if bf is not None:
                     stats["optimality_checked"] += 1
+                    stats["optimality_checked_with_phase"] += bool(phase_patterns(call))
                     # the tie-breaker adds at most minor_add * #selectors / 1e6
                     if sol.score > bf + 1e-3 + TOL:
                         violations.append({"why": f"reported objective {sol.score} but an admissible assignment with objective {bf} exists", "input": d, "signature": "c04:not_optimal"})
@@ -466,6 +552,9 @@ def search(ctx, hints):
             violations.setdefault(sig, {"why": why[0], "all": why[:6], "input": d, "signature": sig})
         for call in real["calls"]:
             if len(call["result"]) == 1 and len(call["mutations"]) <= 7:
+                so = spec_objective(real["gene"], call, call["result"][0])
+                if so is not None and abs(call["result"][0].score - so) > 2e-3 + TOL:
+                    violations.setdefault("c04:score_not_objective", {"why": f"reported score {call['result'][0].score} but the objective of the reported assignment is {so}", "input": d, "signature": "c04:score_not_objective"})
                 bf = brute_force(real, call)
                 if bf is not None and call["result"][0].score > bf + 1e-3 + TOL:
                     violations.setdefault("c04:not_optimal", {"why": f"reported objective {call['result'][0].score} but an admissible assignment with objective {bf} exists", "input": d, "signature": "c04:not_optimal"})
